@@ -10,6 +10,7 @@
 #include <iostream>
 #include <memory>
 #include <sstream>
+#include <stdexcept>
 
 enum class fp_type {
     IEEE754_SINGLE = 1,
@@ -44,11 +45,16 @@ T read_binary(std::istream & fs)
         std::is_standard_layout_v<T>, "Binary IO type must be standard layout!"
     );
 
-    assert(fs.good() && !fs.eof() && !fs.fail() && !fs.bad());
-
     T rv;
 
     fs.read(reinterpret_cast<char *>(&rv), sizeof(T));
+
+    if (!fs) {
+        throw std::runtime_error(
+            "Deserialization of covfie vector field failed: the input stream "
+            "ended or failed before the expected data was read."
+        );
+    }
 
     return rv;
 }
